@@ -323,9 +323,9 @@ class _CallableSink(Callable[..., None]):
   def __init__(self, sink: types.SinkT):
     self._sink = sink
 
-  def __call__(self, *data: tree.TreeLike[_T]) -> None:
+  def __call__(self, *data: tree.TreeLike[_T], **kwdata: tree.TreeLike[_T]) -> None:
     """Writes the data to the sink."""
-    self._sink.write(*data)
+    self._sink.write(*data, **kwdata)
 
   def close(self) -> None:
     """Closes the sink."""
